@@ -441,6 +441,30 @@ partial def loop (h : IO.FS.Stream) (out : IO.FS.Stream) (st : DState) : IO Unit
               out.putStrLn s!"left {left.length}"
           out.putStrLn "END"
       loop h out st
+  | "sampleD" :: rest =>
+      -- sampleD <ncols convs> | <isIntegral bits> | <main|-> maxWeight mergeThresh alpha | <main stream> | h1 | m1 | …
+      match st.forest with
+      | none => out.putStrLn "ERR no-forest"; out.putStrLn "END"
+      | some F =>
+          let parts := rest.splitOn "|"
+          let convs : List (Conv Float) := (do let n ← nN; rep n pConv : P _).run' { toks := (parts.getD 0 []).toArray }
+          let isInt := (parts.getD 1 []).map (· == "1")
+          let prm := parts.getD 2 []
+          let mainCol : Option Nat := if prm.getD 0 "-" == "-" then none else some (prm.getD 0 "0").toNat!
+          let mainStream := (parts.getD 3 []).map pDraw
+          let rec pairsD : List (List String) → List (List Nat × List (Draw Float))
+            | hs :: ms :: more => (hs.map String.toNat!, ms.map pDraw) :: pairsD more
+            | _ => []
+          let streams := pairsD (parts.drop 4)
+          match (sampleDefault realEnv F convs isInt mainCol (pF (prm.getD 1 "0")) (pF (prm.getD 2 "0")) (pF (prm.getD 3 "0")) streams).run mainStream with
+          | .error e => out.putStrLn ("ERR " ++ e)
+          | .ok ((cl, (rows, cols)), left) =>
+              out.putStrLn ("clusters " ++ sClusters cl)
+              out.putStrLn s!"cols {" ".intercalate (cols.map toString)}"
+              for r in rows do out.putStrLn (" ".intercalate (r.map sCell))
+              out.putStrLn s!"left {left.length}"
+          out.putStrLn "END"
+      loop h out st
   | "analyze" :: col =>
       match st.forest with
       | none => out.putStrLn "ERR no-forest"
